@@ -369,27 +369,28 @@ type c12Cons struct {
 }
 
 type c12Buf struct {
-	id      int
-	b       *bigbuff.Buffer
-	h       *c12Handle
-	cool    time.Duration
-	batches []int
-	ppause  []pause
-	pctx    context.Context
-	pcancel context.CancelFunc
-	put     []int
-	inPut   bool
-	prodEnd bool
-	cons    []*c12Cons
-	atClose []interface{}
-	sliced  bool
-	fixed   bool // FixedBufferCleaner(max, target) instead of the default cleaner
-	max     int
-	target  int
-	late    *c12Late // a NewConsumer call made while the shutdown may be under way
-	differ  int      // index of the consumer a separate goroutine calls Diff on (-1 none)
-	dpause  pause
-	dBusy   bool
+	id               int
+	b                *bigbuff.Buffer
+	h                *c12Handle
+	cool             time.Duration
+	batches          []int
+	ppause           []pause
+	pctx             context.Context
+	pcancel          context.CancelFunc
+	put              []int
+	inPut            bool
+	prodEnd          bool
+	cons             []*c12Cons
+	atClose          []interface{}
+	sliced           bool
+	fixed            bool // FixedBufferCleaner(max, target) instead of the default cleaner
+	max              int
+	target           int
+	reconfAfterClose bool     // a flush-everything cleaner is installed after Close has returned
+	late             *c12Late // a NewConsumer call made while the shutdown may be under way
+	differ           int      // index of the consumer a separate goroutine calls Diff on (-1 none)
+	dpause           pause
+	dBusy            bool
 }
 
 // c12Late is a consumer requested late: the NewConsumer call may race Buffer.Close. It either fails
@@ -407,7 +408,7 @@ func (x *c12Buf) lateStarted() bool { return x.late != nil && x.late.started }
 
 func newC12Buf(r *c12Run, nCons int) *c12Buf {
 	r.seq++
-	x := &c12Buf{id: r.seq, cool: drawCooldown(), differ: -1}
+	x := &c12Buf{id: r.seq, cool: drawCooldown(), differ: -1, reconfAfterClose: simrt.Chance(1, 3)}
 	if simrt.Chance(1, 3) {
 		x.fixed = true
 		x.max = simrt.DrawRange(1, 4)
@@ -517,7 +518,16 @@ func (x *c12Buf) start(r *c12Run) {
 		}
 		h.postStage = "Close"
 		simrt.Probe("second_close")
-		return c12MustErr(h, "a second Close", x.b.Close())
+		if !c12MustErr(h, "a second Close", x.b.Close()) {
+			return false
+		}
+		if x.reconfAfterClose {
+			// reconfiguring a closed buffer (whatever the call answers) does not touch what it holds
+			h.postStage = "SetCleanerConfig"
+			simrt.Probe("cleaner_reconfigured_after_close")
+			_ = x.b.SetCleanerConfig(bigbuff.CleanerConfig{Cleaner: func(size int, _ []int) int { return size }, Cooldown: 0})
+		}
+		return true
 	})
 	x.h.inFlight = func() string {
 		for _, k := range x.cons {
@@ -796,6 +806,12 @@ func (x *c12Chan) start(r *c12Run) {
 	x.stopFeed = make(chan struct{})
 	if x.withParent {
 		x.parent, x.pcancel = context.WithCancel(context.Background())
+		if simrt.Chance(1, 6) {
+			// built on a context that is already cancelled: closed from the start, every call fails cleanly
+			simrt.Probe("channel_built_on_a_cancelled_context")
+			simrt.Fault("ctx_cancel")
+			x.pcancel()
+		}
 	}
 	x.gctx, x.gcancel = context.WithCancel(context.Background())
 	ch, err := bigbuff.NewChannel(x.parent, x.rate, x.src)
